@@ -54,8 +54,8 @@ CHECKS = {
     "C20": ("exploration", "hypothesis+enginesim",
             "differential PBT: the same generated history through the C++ and the C interface, compared event by event",
             "No divergence between C++ Rule/Task clients and llb_buildengine_* clients on generated programs x histories "
-            "(every callback with arguments, statuses, completions, values, raw database rows), and the C trace "
-            "satisfies C01's value oracle.",
+            "(every callback with arguments, statuses, completions, values, raw database rows), the C trace "
+            "satisfies C01's value oracle, and the file read back through llb_database_* equals what core::BuildDB reads.",
             "Restricted to what core.h can express (no signatures, prior values, single-use, cancel).", "DESIGN 2/C20"),
     "C19": ("exploration", "libfuzzer",
             "coverage-guided fuzzing (libFuzzer, ASan+UBSan, exact-size buffers) with in-target tiling/EOF/bounds/termination oracles; structure-aware YAML shape decoding",
